@@ -11,6 +11,9 @@ sys.path.insert(0, HERE)
 if os.environ.get("COBA_VERIF_SRC"):
     sys.path.insert(0, os.environ["COBA_VERIF_SRC"])
 from checks.c05 import solo  # noqa: E402
+from checks.common import quiet_context  # noqa: E402
+
+quiet_context()      # (components that log must not write into the answer stream)
 
 for line in sys.stdin:
     req = json.loads(line)
